@@ -603,7 +603,10 @@ impl<K: Kmer, D: Debug> DebruijnGraph<K, D> {
     /// Write the graph to GFA format
     pub fn to_gfa<P: AsRef<Path>>(&self, gfa_out: P) -> Result<(), Error> {
         let wtr = File::create(gfa_out)?;
-        self.write_gfa(&mut std::io::BufWriter::new(wtr))
+        let mut wtr = std::io::BufWriter::new(wtr);
+        self.write_gfa(&mut wtr)?;
+        // report write errors instead of losing them when the buffer is dropped
+        wtr.flush()
     }
 
     pub fn write_gfa(&self, wtr: &mut impl Write) -> Result<(), Error> {
